@@ -541,3 +541,177 @@ pub mod c09 {
         }
     }
 }
+
+pub mod c04 {
+    use crate::http::cors::Cors;
+    use crate::http::headers::{HeaderType, Headers};
+    use crate::http::method::Method;
+    use crate::http::{Request, Response, StatusCode};
+    use crate::route::{RouteHandler, SubApp, WebsocketRouteHandler};
+    use crate::stream::Stream;
+    use std::sync::Arc;
+
+    pub const NH: usize = 2; // host-specific sub-apps
+    pub const NR: usize = 2; // routes per sub-app (and default routes)
+
+    /// The matcher's contract (C05): a function of (pattern, text). The request's Host and path are fixed during one
+    /// dispatch, so the contract is a table "does pattern k match" -- symbolic, hence every combination of matching /
+    /// non-matching hosts and routes, i.e. every Host value and every path, is covered by one run.
+    pub struct M {
+        pub host: [bool; NH],
+        pub route: [[bool; NR]; NH],
+        pub default_route: [bool; NR],
+        pub asked_with_query: bool,
+        pub ran: u8,
+    }
+    pub static mut MT: M = M { host: [false; NH], route: [[false; NR]; NH], default_route: [false; NR], asked_with_query: false, ran: 255 };
+    pub fn m() -> &'static mut M { unsafe { &mut *std::ptr::addr_of_mut!(MT) } }
+
+    /// patterns are the concrete names "h<i>", "r<i><j>", "d<j>"
+    pub fn stub_wildcard_match(wild: &str, tame: &str) -> bool {
+        let w = wild.as_bytes();
+        if tame.as_bytes().contains(&b'?') { m().asked_with_query = true; }
+        let d = |k: usize| (w[k] - b'0') as usize;
+        match w[0] {
+            b'h' => m().host[d(1)],
+            b'r' => m().route[d(1)][d(2)],
+            _ => m().default_route[d(1)],
+        }
+    }
+
+    fn h(_r: Request, _s: Arc<()>) -> Response { Response::empty(StatusCode::OK) }
+    fn route(name: &str) -> RouteHandler<()> {
+        let f: fn(Request, Arc<()>) -> Response = h;
+        RouteHandler { route: name.to_string(), handler: Box::new(f), cors: Cors::default() }
+    }
+    fn request(with_host: bool) -> Request {
+        let mut headers = Headers::new();
+        if with_host { headers.add(HeaderType::Host, "e"); }
+        Request {
+            method: Method::Get,
+            uri: "/".to_string(),
+            query: "q".to_string(),
+            version: String::new(),
+            headers,
+            content: None,
+            address: crate::http::address::Address { origin_addr: std::net::IpAddr::V4(std::net::Ipv4Addr::new(127, 0, 0, 1)), proxies: Vec::new(), port: 1 },
+        }
+    }
+    fn symbolic_matrix() {
+        let t = m();
+        t.host = [kani::any(), kani::any()];
+        t.route = [[kani::any(), kani::any()], [kani::any(), kani::any()]];
+        t.default_route = [kani::any(), kani::any()];
+        t.asked_with_query = false;
+        t.ran = 255;
+    }
+    /// the routing rule of the property statement, over the match table
+    fn expected(with_host: bool) -> Option<(usize, usize)> {
+        let t = m();
+        if with_host {
+            let mut i = 0;
+            while i < NH {
+                if t.host[i] {
+                    // first matching host is the only host-specific sub-app consulted
+                    let mut j = 0;
+                    while j < NR {
+                        if t.route[i][j] { return Some((i, j)); }
+                        j += 1;
+                    }
+                    break;
+                }
+                i += 1;
+            }
+        }
+        let mut j = 0;
+        while j < NR {
+            if t.default_route[j] { return Some((NH, j)); }
+            j += 1;
+        }
+        None
+    }
+
+    fn get_handler_contract(with_host: bool) {
+        symbolic_matrix();
+        let subapps: Vec<SubApp<()>> = vec![
+            SubApp { host: "h0".to_string(), routes: vec![route("r00"), route("r01")], websocket_routes: Vec::new(), cors: None },
+            SubApp { host: "h1".to_string(), routes: vec![route("r10"), route("r11")], websocket_routes: Vec::new(), cors: None },
+        ];
+        let default: SubApp<()> = SubApp { host: "*".to_string(), routes: vec![route("d0"), route("d1")], websocket_routes: Vec::new(), cors: None };
+        let req = request(with_host);
+        let got = super::super::get_handler(&req, &subapps, &default);
+        match expected(with_host) {
+            None => assert!(got.is_none(), "no matching route anywhere => no handler (404)"),
+            Some((s, j)) => {
+                let want: &RouteHandler<()> = if s < NH { &subapps[s].routes[j] } else { &default.routes[j] };
+                match got {
+                    Some(g) => assert!(std::ptr::eq(g, want), "first matching route of the first matching host, else first matching default route"),
+                    None => assert!(false, "a matching route exists but no handler was chosen"),
+                }
+            }
+        }
+        assert!(!m().asked_with_query, "the query string takes no part in matching");
+        kani::cover!(got.is_some(), "a handler was selected");
+    }
+    #[kani::proof]
+    #[kani::unwind(5)]
+    #[kani::stub(crate::krauss::wildcard_match, stub_wildcard_match)]
+    pub fn c04_get_handler_with_host() { get_handler_contract(true); }
+    #[kani::proof]
+    #[kani::unwind(5)]
+    #[kani::stub(crate::krauss::wildcard_match, stub_wildcard_match)]
+    pub fn c04_get_handler_without_host() { get_handler_contract(false); }
+
+    // ---- WebSocket dispatch: same rule over websocket_routes, observed by which handler ran ----
+    fn ws0(_r: Request, _s: Stream, _st: Arc<()>) { m().ran = 0; }
+    fn ws1(_r: Request, _s: Stream, _st: Arc<()>) { m().ran = 1; }
+    fn ws2(_r: Request, _s: Stream, _st: Arc<()>) { m().ran = 2; }
+    fn ws3(_r: Request, _s: Stream, _st: Arc<()>) { m().ran = 3; }
+    fn ws4(_r: Request, _s: Stream, _st: Arc<()>) { m().ran = 4; }
+    fn ws5(_r: Request, _s: Stream, _st: Arc<()>) { m().ran = 5; }
+    fn wsroute(name: &str, f: fn(Request, Stream, Arc<()>)) -> WebsocketRouteHandler<()> {
+        WebsocketRouteHandler { route: name.to_string(), handler: Box::new(f) }
+    }
+    pub fn stub_close(_fd: i32) -> i32 { 0 }
+    fn websocket_contract(with_host: bool) { websocket_contract_shape(with_host, false) }
+    /// small = 1 host sub-app x 1 route + 1 default route (the absent patterns never match)
+    fn websocket_contract_shape(with_host: bool, small: bool) {
+        use std::os::unix::io::FromRawFd;
+        symbolic_matrix();
+        let (subapps, default): (Vec<SubApp<()>>, SubApp<()>) = if small {
+            let t = m();
+            t.host[1] = false; t.route[0][1] = false; t.route[1] = [false, false]; t.default_route[1] = false;
+            (vec![SubApp { host: "h0".to_string(), routes: Vec::new(), websocket_routes: vec![wsroute("r00", ws0)], cors: None }],
+             SubApp { host: "*".to_string(), routes: Vec::new(), websocket_routes: vec![wsroute("d0", ws4)], cors: None })
+        } else {
+            (vec![
+                SubApp { host: "h0".to_string(), routes: Vec::new(), websocket_routes: vec![wsroute("r00", ws0), wsroute("r01", ws1)], cors: None },
+                SubApp { host: "h1".to_string(), routes: Vec::new(), websocket_routes: vec![wsroute("r10", ws2), wsroute("r11", ws3)], cors: None },
+             ],
+             SubApp { host: "*".to_string(), routes: Vec::new(), websocket_routes: vec![wsroute("d0", ws4), wsroute("d1", ws5)], cors: None })
+        };
+        let req = request(with_host);
+        let stream = Stream::Tcp(unsafe { std::net::TcpStream::from_raw_fd(3) });
+        super::super::call_websocket_handler(&req, &subapps, &default, Arc::new(()), stream);
+        match expected(with_host) {
+            None => assert!(m().ran == 255, "no matching WebSocket route => no handler runs (connection just closed)"),
+            Some((s, j)) => assert!(m().ran as usize == s * NR + j, "exactly the handler of the first matching WebSocket route ran"),
+        }
+        kani::cover!(m().ran == 4, "a default WebSocket route reachable");
+    }
+    #[kani::proof]
+    #[kani::unwind(5)]
+    #[kani::stub(crate::krauss::wildcard_match, stub_wildcard_match)]
+    #[kani::stub(libc::close, stub_close)]
+    pub fn c04_websocket_dispatch_with_host() { websocket_contract(true); }
+    #[kani::proof]
+    #[kani::unwind(5)]
+    #[kani::stub(crate::krauss::wildcard_match, stub_wildcard_match)]
+    #[kani::stub(libc::close, stub_close)]
+    pub fn c04_websocket_dispatch_without_host() { websocket_contract(false); }
+    #[kani::proof]
+    #[kani::unwind(5)]
+    #[kani::stub(crate::krauss::wildcard_match, stub_wildcard_match)]
+    #[kani::stub(libc::close, stub_close)]
+    pub fn c04_websocket_dispatch_small_with_host() { websocket_contract_shape(true, true); }
+}
